@@ -1,7 +1,7 @@
 //! C01: after every operation of a history, every reverse lookup of every item.
 use crate::out::Out;
 use crate::rng::Rng;
-use crate::storegen::{apply, gen_history, new_store, obs_counts, obs_stored, observe, GenCfg};
+use crate::storegen::{apply, gen_history, new_store, obs_counts, obs_forward, obs_stored, observe, GenCfg};
 use crate::sx::{l, Sx};
 
 pub struct Ctx {}
@@ -27,6 +27,7 @@ impl Ctx {
             outs.push(r);
             outs.extend(observe(&store));
             outs.push(obs_counts(&store));
+            outs.push(obs_forward(&store));
             let mut step = Vec::new();
             for h in 0..store.annotations_len() {
                 if let Some((stored, expanded, kind)) = obs_stored(&store, h) {
@@ -267,5 +268,5 @@ pub fn generate(out: &mut Out, tier: &str, seed: u64) {
     }
 }
 
-pub const RULE: &str = "a deterministic family of 144 histories in which a complex selector names two items of one kind (keys, data, resources, datasets, annotations, key + data), one of them is removed, new annotations go on the other, which is then removed too (every complex kind, member order, removed member, strict and not); a deterministic family of 1296 histories with a complex selector over three annotations on adjacent text, every member without offset / covering the whole target in three alignments / covering a part at either end (the internal RangedAnnotationSelector with and without text triggers, extends, just misses; every complex kind, two orders; then an annotation on it and removals); for every complex target after every operation the stored subselector vector and its expansion, compared with the model's own compression and expansion; a deterministic family of 162 histories in which the text-selection handles of two resources line up with the internal range compression of complex selectors (every complex kind, three member orders, then removal of both resources); seeded random histories of 1..14 (every 4th: 1..40) operations over <=6 resources of 0..8 codepoints, <=4 datasets, all nine selector kinds (text, annotation with and without relative offset, resource, dataset, key, data, Multi/Composite/Directional with 1..4 members incl. consecutive ranges that trigger and just miss range compression), references by id and by handle, shrink_to_fit calls in a third of the histories, data with and without ids, the same data twice, duplicate ids, one in 12 references invalid, removals of annotations/data (strict and not)/keys/resources/datasets (two thirds of the histories); after EVERY operation the outcome and, for every annotation, resource (with every known text selection), dataset (with every key and data item) slot, all reverse lookups through the public API, plus id resolution of 10 tokens per kind and the counting shortcuts (annotations_len / annotations_count of every text selection, key and data item). One evaluation = one item record or operation outcome; non-trivial = history with a successful annotate/removal; distinct = distinct histories.";
+pub const RULE: &str = "a deterministic family of 144 histories in which a complex selector names two items of one kind (keys, data, resources, datasets, annotations, key + data), one of them is removed, new annotations go on the other, which is then removed too (every complex kind, member order, removed member, strict and not); a deterministic family of 1296 histories with a complex selector over three annotations on adjacent text, every member without offset / covering the whole target in three alignments / covering a part at either end (the internal RangedAnnotationSelector with and without text triggers, extends, just misses; every complex kind, two orders; then an annotation on it and removals); for every complex target after every operation the stored subselector vector and its expansion, compared with the model's own compression and expansion; a deterministic family of 162 histories in which the text-selection handles of two resources line up with the internal range compression of complex selectors (every complex kind, three member orders, then removal of both resources); seeded random histories of 1..14 (every 4th: 1..40) operations over <=6 resources of 0..8 codepoints, <=4 datasets, all nine selector kinds (text, annotation with and without relative offset, resource, dataset, key, data, Multi/Composite/Directional with 1..4 members incl. consecutive ranges that trigger and just miss range compression), references by id and by handle, shrink_to_fit calls in a third of the histories, data with and without ids, the same data twice, duplicate ids, one in 12 references invalid, removals of annotations/data (strict and not)/keys/resources/datasets (two thirds of the histories); after EVERY operation the outcome and, for every annotation, resource (with every known text selection), dataset (with every key and data item) slot, all reverse lookups through the public API, plus id resolution of 10 tokens per kind the counting shortcuts (annotations_len / annotations_count of every text selection, key and data item) and, for every annotation, its targets by kind through resources(), resources_as_metadata(), datasets(), data_as_metadata(), keys_as_metadata(), annotations_in_targets(One / Max). One evaluation = one item record or operation outcome; non-trivial = history with a successful annotate/removal; distinct = distinct histories.";
 pub const EXHAUSTIVE: bool = false;
